@@ -389,6 +389,8 @@ class Engine:
         fr.parent = c.frame
         self.frames.append(fr)
         try:
+            if isinstance(node, ast.Lambda):
+                return self.ev(node.body)
             try:
                 self.exec_block(node.body)
                 return None
@@ -1051,7 +1053,12 @@ class Engine:
             return ''.join(parts)
         if isinstance(e, (ast.ListComp, ast.GeneratorExp)):
             return self.ev_comprehension(e)
-        if isinstance(e, (ast.SetComp, ast.DictComp, ast.Lambda, ast.Dict, ast.Set)):
+        if isinstance(e, ast.Lambda):
+            a_ = e.args
+            if a_.vararg or a_.kwarg or a_.kwonlyargs or a_.posonlyargs or a_.defaults:
+                raise Refuse('lambda with a variadic signature or defaults')
+            return ClosureModel(e, self.frames[-1])
+        if isinstance(e, (ast.SetComp, ast.DictComp, ast.Dict, ast.Set)):
             return self.ev_native(e)
         raise Refuse('expression ' + type(e).__name__)
 
@@ -1252,6 +1259,14 @@ class Engine:
                 cands = [k for k in range(n) if idx.lo <= k <= idx.hi]
                 if not cands:
                     raise PathEnd()
+                if any(not isinstance(base.items[k], (int, SV, SB)) for k in cands):
+                    # a list of objects: one path per index value
+                    self.assume(and_(idx >= 0, idx < n))
+                    for k in cands[:-1]:
+                        if self.decide(cmpop('==', idx, k)):
+                            return base.items[k]
+                    self.assume(cmpop('==', idx, cands[-1]))
+                    return base.items[cands[-1]]
                 res = base.items[cands[-1]]
                 for k in reversed(cands[:-1]):
                     res = ite(cmpop('==', idx, k), base.items[k], res)
